@@ -442,8 +442,8 @@ impl Uplinks {
                 .join(",")
         }
         format!(
-            "w={};v=[{}];s=[{}];m=[{}];wq={:?};sq={:?}",
-            self.writer.is_some(),
+            "w={:?};v=[{}];s=[{}];m=[{}];wq={:?};sq={:?}",
+            self.writer.as_ref().map(|(sender, _)| sender.lane.as_str()),
             render(&self.value_uplinks, |b| format!("{:?}", b)),
             render(&self.supply_uplinks, |b| format!("{:?}", b)),
             render(&self.map_uplinks, |b| b.verif_key()),
